@@ -60,9 +60,12 @@ pub fn len_near(limit: usize) -> BoxedStrategy<usize> {
 }
 
 pub fn text_upto(limit: usize) -> BoxedStrategy<String> {
-    (len_near(limit), 0u8..4, any::<u64>())
-        .prop_map(|(l, f, s)| make_text(l, f, s))
-        .boxed()
+    let plain = (len_near(limit), 0u8..4, any::<u64>()).prop_map(|(l, f, s)| make_text(l, f, s));
+    if limit >= 32 {
+        prop_oneof![9 => plain, 1 => magic_text()].boxed()
+    } else {
+        plain.boxed()
+    }
 }
 
 /// text of lengths around the sizes at which an implementation might cap, truncate or switch
@@ -108,6 +111,25 @@ pub fn dictionary_reason(code: u16, other: u16, how: u8) -> String {
         7 => base.to_lowercase(),
         _ => format!("{}.", base),
     }
+}
+
+/// text that starts with (or is) a token with a special meaning in the RFCs, followed by 0..=8
+/// characters: the RFC 8489 nonce cookie "obMatJos2" (s9.2) with and without its 4 base64
+/// characters, the magic cookie as text, the FINGERPRINT constant "STUN"
+pub fn magic_text() -> BoxedStrategy<String> {
+    let toks = ["obMatJos2", "obMatJos2AAAA", "obMatJos2AAAB", "obMatJos", "STUN", "!\u{12}\u{a4}B", "stun-types"];
+    (0usize..7, "[A-Za-z0-9+/=]{0,8}", prop_oneof![3 => Just(0usize), 1 => 0usize..=12]).prop_map(move |(i, tail, cut)| {
+        let mut t = format!("{}{}", toks[i], tail);
+        if cut > 0 {
+            let keep = t.len().saturating_sub(cut).max(1);
+            while !t.is_char_boundary(keep.min(t.len())) {
+                t.pop();
+            }
+            t.truncate(keep.min(t.len()));
+        }
+        t
+    })
+    .boxed()
 }
 
 pub fn small_text() -> BoxedStrategy<String> {
@@ -804,6 +826,16 @@ pub fn msg_spec(seal: BoxedStrategy<Seal>, max_attrs: usize, huge_pct: u32) -> B
         .prop_map(|(class, method, tid, attrs, fill_body_to, seal, creds)| {
             let mut attrs = dedup_types(attrs);
             attrs.retain(|a| !(0xC100..0xC200).contains(&a.ty()));
+            // an XOR-MAPPED-ADDRESS whose *wire* form (address ^ cookie||id) is a special IPv6 address
+            if tid % 7 == 3 {
+                for a in attrs.iter_mut() {
+                    if let AttrSpec::Typed { kind: Kind::XorMappedAddress, fields } = a {
+                        let wire = special_v6((tid >> 5) as u64);
+                        let addr = wire ^ ((0x2112_A442u128 << 96) | (tid & TID_MASK));
+                        *fields = Fields::Addr(SocketAddr::new(IpAddr::V6(Ipv6Addr::from(addr)), (tid >> 20) as u16).to_string());
+                    }
+                }
+            }
             // about one message in 25 carries many small attributes (17..=48: past the inline
             // capacity of small vectors and fixed tables of 16 or 32 entries)
             if (tid ^ (method as u128)) % 25 == 0 {
@@ -987,9 +1019,19 @@ pub fn wire_plain() -> BoxedStrategy<WireAttr> {
         1 => Just(0xffffu16),
     ];
     let len = prop_oneof![6 => 0usize..=9, 2 => 10usize..=40, 1 => 0usize..=300];
-    (ty, bytes_len(len), prop_oneof![Just(0u8), any::<u8>()])
-        .prop_map(|(ty, v, pad)| WireAttr::Plain { ty, value: Hex(v), pad })
-        .boxed()
+    let arbitrary = (ty, bytes_len(len), prop_oneof![Just(0u8), any::<u8>()]).prop_map(|(ty, v, pad)| WireAttr::Plain { ty, value: Hex(v), pad });
+    // values that are valid (or one step from valid) for their built-in type, so that typed lookups
+    // have something to decode; two of them of the same type may meet in one message
+    let near_valid = (0usize..16)
+        .prop_flat_map(|i| {
+            let kind = NON_TAIL_KINDS[i];
+            near_valid_value(kind).prop_map(move |v| WireAttr::Plain {
+                ty: kind.code(),
+                value: Hex(if v.len() > 800 { v[..800].to_vec() } else { v }),
+                pad: 0,
+            })
+        });
+    prop_oneof![3 => arbitrary, 1 => near_valid].boxed()
 }
 
 /// FINGERPRINT values with a special meaning somewhere in the computation: zero, all ones, the
@@ -1158,4 +1200,18 @@ pub fn repair_message(data: &[u8], fix_fp: bool) -> Vec<u8> {
 pub fn raw_case_bytes(case: &serde_json::Value) -> Result<Vec<u8>, String> {
     let h = case.get("bytes").and_then(|v| v.as_str()).ok_or("raw case without a bytes field")?;
     crate::common::unhex(h)
+}
+
+/// message specs whose sealed body has exactly `body` bytes (filler raw attributes + the sealing
+/// attributes), for sweeps over every aligned message size
+pub fn sized_spec(body: u32, seal: Seal, class: u8) -> MsgSpec {
+    MsgSpec {
+        class,
+        method: 1,
+        tid: 0x0b0d_0000_0000_0000_0000_0000u128 | body as u128,
+        attrs: vec![],
+        fill_body_to: Some(body),
+        seal,
+        creds: Creds::Short { password: "sweep".into() },
+    }
 }
